@@ -138,6 +138,66 @@ Proof. intros base v w (Hs & He & _ & _). unfold vlen, wlen. lia. Qed.
 Lemma view_is_set_off : forall base v w p, view_is base v w -> view_is base (set_off v p) (set_pos w p).
 Proof. intros base v w p (Hs & He & Ho & Hc). unfold view_is, set_off, set_pos. cbn. repeat split; assumption. Qed.
 
+Lemma read_refines : forall base m d v w n v1 r,
+  view_is base v w -> win_ok (zlen d) w -> agree m base d -> read m v n = (v1, r) ->
+  let req := if n <? 0 then wlen w - w_pos w else n in
+  let k := transfer (w_pos w) req (wlen w) in
+  view_is base v1 (set_pos w (w_pos w + k))
+  /\ output_is base r (Ok (VBytes (sub d (w_lo w + w_pos w) k)), warned (w_pos w) req (wlen w))
+  /\ o_calls r = (if 0 <? k then [CRead (address v) k] else [])
+  /\ agree (apply_calls m (o_calls r)) base d.
+Proof.
+  intros base m d v w n v1 r Hvw Hok Hag Hr.
+  pose proof (view_is_len _ _ _ Hvw) as Hlen.
+  pose proof Hvw as Hvw0. destruct Hvw0 as (Hs & He & Ho & Hc).
+  destruct (read_transfers _ _ _ _ _ Hr) as (Hres & Hv' & Hw & Hcalls). cbv zeta in *.
+  assert (Hreq : read_req v n = (if n <? 0 then wlen w - w_pos w else n)).
+  { unfold read_req. rewrite Hlen, Ho. reflexivity. }
+  rewrite Hreq, Hlen, Ho in *.
+  set (k := transfer (w_pos w) (if n <? 0 then wlen w - w_pos w else n) (wlen w)) in *.
+  assert (Haddr : address v = base + (w_lo w + w_pos w)) by (unfold address; lia).
+  split; [subst v1; apply view_is_set_off; exact Hvw|].
+  split; [|split; [exact Hcalls|rewrite Hcalls; destruct (0 <? k); exact Hag]].
+  split; [|exact Hw]. cbn [fst]. rewrite Hres. cbn [result_is value_is].
+  rewrite Haddr. f_equal.
+  destruct (Z.ltb_spec 0 k) as [Hk|Hk].
+  - destruct (transfer_bounds _ _ _ Hk) as (Hp0 & Hpk). fold k in Hpk. unfold wlen, win_ok in *.
+    apply (read_is_sub _ _ _ _ _ Hag); lia.
+  - assert (Hk0 : k = 0) by (unfold k, transfer in *; zcases; lia).
+    rewrite Hk0. reflexivity.
+Qed.
+
+Lemma write_refines : forall base m d v w bs v1 r,
+  view_is base v w -> win_ok (zlen d) w -> agree m base d -> write v bs = (v1, r) ->
+  let k := transfer (w_pos w) (zlen bs) (wlen w) in
+  let d' := if 0 <? k then splice d (w_lo w + w_pos w) (firstn (Z.to_nat k) bs) else d in
+  view_is base v1 (set_pos w (w_pos w + k))
+  /\ output_is base r (Ok (VInt k), warned (w_pos w) (zlen bs) (wlen w))
+  /\ o_calls r = (if 0 <? k then [CWrite (address v) (firstn (Z.to_nat k) bs)] else [])
+  /\ length d' = length d
+  /\ agree (apply_calls m (o_calls r)) base d'.
+Proof.
+  intros base m d v w bs v1 r Hvw Hok Hag Hr.
+  pose proof (view_is_len _ _ _ Hvw) as Hlen.
+  pose proof Hvw as Hvw0. destruct Hvw0 as (Hs & He & Ho & Hc).
+  destruct (write_transfers _ _ _ _ Hr) as (Hres & Hv' & Hw & Hcalls). cbv zeta in *.
+  rewrite Hlen, Ho in *.
+  set (k := transfer (w_pos w) (zlen bs) (wlen w)) in *.
+  assert (Haddr : address v = base + (w_lo w + w_pos w)) by (unfold address; lia).
+  assert (Hfit : 0 < k -> 0 <= w_lo w + w_pos w /\
+                          w_lo w + w_pos w + zlen (firstn (Z.to_nat k) bs) <= zlen d).
+  { intros Hk. destruct (transfer_bounds _ _ _ Hk) as (Hp0 & Hpk). fold k in Hpk.
+    rewrite zlen_firstn by lia. unfold wlen, win_ok in *. lia. }
+  split; [subst v1; apply view_is_set_off; exact Hvw|].
+  split; [split; [cbn [fst]; rewrite Hres; reflexivity | exact Hw]|].
+  split; [exact Hcalls|].
+  split.
+  - destruct (Z.ltb_spec 0 k) as [Hk|Hk]; [|reflexivity]. apply splice_length; apply Hfit; exact Hk.
+  - rewrite Hcalls. destruct (Z.ltb_spec 0 k) as [Hk|Hk]; [|exact Hag].
+    cbn [apply_calls fold_left apply_call]. rewrite Haddr.
+    apply write_is_splice; [exact Hag| |]; apply Hfit; exact Hk.
+Qed.
+
 Lemma vstep_refines : forall base fr m d v w vo v' nw out,
   view_is base v w -> win_ok (zlen d) w -> agree m base d ->
   vstep fr m v vo = (v', nw, out) ->
@@ -166,7 +226,20 @@ Proof.
     exists w1, None, d, (ar, false). split; [reflexivity|]. split; [exact Hv1|].
     split; [unfold win_ok in *; rewrite Hlo, Hhi; exact Hok|]. split; [reflexivity|].
     split; [exact I|]. split; [split; [exact Hr|reflexivity]|]. exact Hag. }
-  destruct vo as [n wh|n|bs|a b step| | | | | ]; cbn [vstep abs_vop] in Hstep |- *.
+  (* the same with warnings given before the failure *)
+  assert (Hquiet2 : forall (r : Z) (wn : Z) (b : bool),
+            (0 <? wn) = b ->
+            (v', nw, out) = (v, @None view, mkOut (Failed r) wn []) ->
+            exists w' nwin d' aout,
+              (w, @None window, d, (Failed r, b)) = (w', nwin, d', aout)
+              /\ view_is base v' w' /\ win_ok (zlen d') w' /\ length d' = length d
+              /\ new_is base (zlen d') nw nwin /\ output_is base out aout
+              /\ agree (apply_calls m (o_calls out)) base d').
+  { intros r wn b Hb Heq. inversion Heq; subst v' nw out.
+    exists w, None, d, (Failed r, b). split; [reflexivity|]. split; [exact Hvw|].
+    split; [exact Hok|]. split; [reflexivity|].
+    split; [exact I|]. split; [split; [reflexivity|exact Hb]|]. exact Hag. }
+  destruct vo as [n wh|n|bs|a b step| | | | | |n|bs|n|bs| | ]; cbn [vstep abs_vop] in Hstep |- *.
   - (* seek *)
     destruct (dead fr v) eqn:Ed.
     { assert (Hw : wstep fr d w (if wh =? 0 then FSeekSet n else if wh =? 1 then FSeekCur n
@@ -287,7 +360,74 @@ Proof.
     + apply (Hquiet w (Failed 0) (Failed 0) v Hvw eq_refl eq_refl eq_refl Hstep).
     + apply (Hquiet w (Ok VNone) (Ok VNone) v Hvw eq_refl eq_refl I Hstep).
   - (* close *)
-    cbn [wstep]. rewrite <- Hc. symmetry in Hstep.
+    cbn [wstep]. rewrite <- Hc. unfold close_step in Hstep. symmetry in Hstep.
+    destruct (v_closed v) eqn:Ecl.
+    + apply (Hquiet w (Ok VNone) (Ok VNone) v Hvw eq_refl eq_refl I Hstep).
+    + destruct fr.
+      * apply (Hquiet w (Failed 0) (Failed 0) v Hvw eq_refl eq_refl eq_refl Hstep).
+      * apply (Hquiet (mkWindow (w_lo w) (w_hi w) (w_pos w) true) (Ok VNone) (Ok VNone) (set_closed v));
+          try reflexivity; try exact Hstep; try exact I.
+        unfold view_is, set_closed. cbn. repeat split; assumption.
+  - (* read, the controller raising during the transfer *)
+    cbn [wstep]. rewrite <- Hdead.
+    destruct (dead fr v) eqn:Ed.
+    { symmetry in Hstep. apply (Hquiet w (Failed 0) (Failed 0) v Hvw eq_refl eq_refl eq_refl Hstep). }
+    destruct (read m v n) as [v1 r] eqn:Hr.
+    destruct (read_refines _ _ _ _ _ _ _ _ Hvw Hok Hag Hr) as (Hv1 & Hout & Hcalls & Hag'). cbv zeta in *.
+    unfold faulted in Hstep. cbn [fst snd] in Hstep. rewrite Hcalls in Hstep.
+    destruct (0 <? transfer (w_pos w) (if n <? 0 then wlen w - w_pos w else n) (wlen w)) eqn:Ek.
+    + symmetry in Hstep. apply (Hquiet2 2 (o_warns r) _ (proj2 Hout) Hstep).
+    + inversion Hstep; subst v' nw out; clear Hstep.
+      eexists _, None, d, _. split; [reflexivity|]. split; [exact Hv1|]. split; [exact Hok|].
+      split; [reflexivity|]. split; [exact I|]. split; [exact Hout|exact Hag'].
+  - (* write, the controller raising during the transfer *)
+    cbn [wstep]. rewrite <- Hdead.
+    destruct (dead fr v) eqn:Ed.
+    { symmetry in Hstep. apply (Hquiet w (Failed 0) (Failed 0) v Hvw eq_refl eq_refl eq_refl Hstep). }
+    destruct (write v bs) as [v1 r] eqn:Hr.
+    destruct (write_refines _ _ _ _ _ _ _ _ Hvw Hok Hag Hr) as (Hv1 & Hout & Hcalls & Hlen' & Hag').
+    cbv zeta in *.
+    unfold faulted in Hstep. cbn [fst snd] in Hstep. rewrite Hcalls in Hstep.
+    destruct (0 <? transfer (w_pos w) (zlen bs) (wlen w)) eqn:Ek.
+    + symmetry in Hstep. apply (Hquiet2 2 (o_warns r) _ (proj2 Hout) Hstep).
+    + inversion Hstep; subst v' nw out; clear Hstep.
+      eexists _, None, d, _. split; [reflexivity|]. split; [exact Hv1|]. split; [exact Hok|].
+      split; [reflexivity|]. split; [exact I|]. split; [exact Hout|exact Hag'].
+  - (* read, TruncationWarning raised as an exception *)
+    cbn [wstep]. rewrite <- Hdead.
+    destruct (dead fr v) eqn:Ed.
+    { symmetry in Hstep. apply (Hquiet w (Failed 0) (Failed 0) v Hvw eq_refl eq_refl eq_refl Hstep). }
+    destruct (read m v n) as [v1 r] eqn:Hr.
+    destruct (read_refines _ _ _ _ _ _ _ _ Hvw Hok Hag Hr) as (Hv1 & Hout & Hcalls & Hag'). cbv zeta in *.
+    unfold strict in Hstep. cbn [fst snd] in Hstep. destruct Hout as (Hout1 & Hout2). cbn [snd] in Hout2.
+    rewrite <- Hout2.
+    destruct (0 <? o_warns r) eqn:Ew.
+    + symmetry in Hstep. apply (Hquiet2 3 0 false eq_refl Hstep).
+    + inversion Hstep; subst v' nw out; clear Hstep.
+      eexists _, None, d, _. split; [reflexivity|]. split; [exact Hv1|]. split; [exact Hok|].
+      split; [reflexivity|]. split; [exact I|]. split; [split; [exact Hout1|exact Ew]|exact Hag'].
+  - (* write, TruncationWarning raised as an exception *)
+    cbn [wstep]. rewrite <- Hdead.
+    destruct (dead fr v) eqn:Ed.
+    { symmetry in Hstep. apply (Hquiet w (Failed 0) (Failed 0) v Hvw eq_refl eq_refl eq_refl Hstep). }
+    destruct (write v bs) as [v1 r] eqn:Hr.
+    destruct (write_refines _ _ _ _ _ _ _ _ Hvw Hok Hag Hr) as (Hv1 & Hout & Hcalls & Hlen' & Hag').
+    cbv zeta in *.
+    unfold strict in Hstep. cbn [fst snd] in Hstep. destruct Hout as (Hout1 & Hout2). cbn [snd] in Hout2.
+    rewrite <- Hout2.
+    destruct (0 <? o_warns r) eqn:Ew.
+    + symmetry in Hstep. apply (Hquiet2 3 0 false eq_refl Hstep).
+    + inversion Hstep; subst v' nw out; clear Hstep.
+      eexists _, None, _, _. split; [reflexivity|]. split; [exact Hv1|].
+      assert (Hok' : forall (dd : list Z) p, length dd = length d -> win_ok (zlen dd) (set_pos w p)).
+      { intros dd p Hdd. unfold zlen. rewrite Hdd. exact Hok. }
+      split; [exact (Hok' _ _ Hlen')|]. split; [exact Hlen'|]. split; [exact I|].
+      split; [split; [exact Hout1|exact Ew]|exact Hag'].
+  - (* __enter__ *)
+    cbn [wstep]. symmetry in Hstep.
+    apply (Hquiet w (Ok VNone) (Ok VNone) v Hvw eq_refl eq_refl I Hstep).
+  - (* __exit__ = close *)
+    cbn [wstep]. rewrite <- Hc. unfold close_step in Hstep. symmetry in Hstep.
     destruct (v_closed v) eqn:Ecl.
     + apply (Hquiet w (Ok VNone) (Ok VNone) v Hvw eq_refl eq_refl I Hstep).
     + destruct fr.
